@@ -99,6 +99,8 @@ def run(ctx):
             except Exception as e:  # noqa
                 viol(f"ConanVersion({v.string!r}).upper_bound/bump({i}) raised {e!r}", inputs=dict(version=v.string, index=i))
                 continue
+            if gens.conan_mixed(v.value._value, ub._value) or gens.conan_mixed(ub._value, bp._value):
+                continue  # number-vs-word in one position: the order is excluded there (C01), e.g. a main part with a dash
             nontrivial.add(("conan", v.string, i))
             if not ok:
                 viol(f"ConanVersion({v.string!r}): upper_bound({i}) = {ub}, bump({i}) = {bp}: expected v < upper_bound < bump",
